@@ -3,6 +3,7 @@ C14 instantiated with the transcribed package decoders (`Codec.ops`, Model/Codec
 -/
 import Dblib.Props.C14.Abstract
 import Dblib.Props.C02.Concrete
+import Dblib.Model.PacketReaderDriver
 
 namespace Dblib.Props.C14
 open Dblib Dblib.Rx Dblib.Codec Dblib.Props.C02
@@ -14,5 +15,14 @@ theorem c14_concrete_channel_clean_prefix (last : Option Pkg) (T : Bytes) (pkgs 
     ∃ j, j ≤ pkgs.length ∧
       (run Codec.ops (withBuf rx last (T.take k) false)).2.1 = (pkgs.take j).flatMap (acceptEv Codec.ops rx.nEed rx.nEnv) :=
   c14_channel_clean_prefix Codec.ops select_incr last T pkgs hW rx k
+
+/-- a request write that fails is reported as an error, with exactly the packets before it written;
+a request whose writes all succeed is sent completely (the loop of `sendPackets` returns at the
+first failing `sendPacket`; tied to the code by the `wf` lines of the C14 harness) -/
+theorem c14_write_failure_reported (total k : Nat) :
+    (1 ≤ k ∧ k ≤ total → Reader.sendWriteFail total k = (false, k - 1)) ∧
+    (¬ (1 ≤ k ∧ k ≤ total) → Reader.sendWriteFail total k = (true, total)) := by
+  unfold Reader.sendWriteFail
+  constructor <;> intro h <;> simp [h]
 
 end Dblib.Props.C14
